@@ -32,7 +32,14 @@ import (
 	"verifharness/storelab"
 )
 
-var exclusionSet = []string{"queueForSend", "sendInReplyTo", "dropAndSendInReplyTo", "dropAndReset", "EnqueueBytesAndSend", "SendAppMessages", "resendMessages", "prepMessageForSend", "persist", "sendQueued"}
+// The exclusion each send-path function provides for the accesses made directly inside it:
+// "send" = sendMutex held, "resendR"/"resendW" = resendMutex read-/write-locked.
+var exclusionSet = map[string][]string{
+	"queueForSend": {"send", "resendR"}, "sendInReplyTo": {"send", "resendR"},
+	"dropAndSendInReplyTo": {"send"}, "dropAndReset": {"send"}, "EnqueueBytesAndSend": {"send"}, "SendAppMessages": {"send"},
+	"prepMessageForSend": {"send"}, "persist": {"send"}, "sendQueued": {"send"},
+	"resendMessages": {"resendW"},
+}
 
 func init() {
 	core.Register(&core.Prop{
@@ -40,26 +47,50 @@ func init() {
 		Rule:        "cases are runs of the real run loop: 2-16 sender goroutines x 30-150 sends each through the public API, a scripted peer sending TestRequests, ResendRequests over random ranges and malformed messages, heartbeats at 1 s, seeded yields at the send-path hook points, GOMAXPROCS in {2,4,16}, stores memory/file/sqlite, persistence on/off; non-trivial = run in which at least two goroutines' sends interleave in number order and a replay overlapped senders; distinct by the fingerprint of the goroutine sequence in number order",
 		Assumptions: []string{"'every assigned number is transmitted' is judged only for runs without disconnect", "data-race reports are violations only when both stacks are inside the functions that run under sendMutex/resendMutex; other reports are diagnostics"},
 		FloorQuick:  8, FloorThorough: 100,
-		RaceRelevant: func(f1, f2 []string) bool { return inSet(f1) && inSet(f2) },
+		RaceRelevant: func(f1, f2 []string) bool { return excludes(locksOf(f1), locksOf(f2)) },
 		Parts:        []core.Part{{Name: "live", Race: true, Run: run, QuickTimeoutS: 600}},
 	})
 }
 
-// inSet: the innermost session-level frame of the racing access (store internals skipped) is one
-// of the functions that run with sendMutex/resendMutex held — i.e. the access itself happens
-// inside the critical section the property's mechanism names, not merely below a function that
-// takes the lock later.
-func inSet(frames []string) bool {
+// locksOf: the exclusion held at the racing access, judged by its innermost session-level frame (store
+// internals skipped): the access itself happens inside the critical section the property's mechanism
+// names, not merely below a function that takes the lock earlier or later.
+func locksOf(frames []string) []string {
 	for _, f := range frames {
 		if !strings.HasPrefix(f, "github.com/quickfixgo/quickfix.") || strings.Contains(f, "Store)") || strings.Contains(f, "Verif") {
 			continue // runtime, store implementations, instrumentation
 		}
-		for _, x := range exclusionSet {
+		for x, l := range exclusionSet {
 			if strings.HasSuffix(f, ")."+x) || strings.HasSuffix(f, "."+x) {
+				return l
+			}
+		}
+		return nil
+	}
+	return nil
+}
+
+// excludes: two accesses are meant to be mutually exclusive when both hold sendMutex, or one holds
+// resendMutex exclusively and the other holds it at all. (A reset through the registry API holds only
+// sendMutex and a replay walking the store only resendMutex: that pair is not excluded by design of the
+// engine; reported as a diagnostic, it is outside the statement of C02.)
+func excludes(a, b []string) bool {
+	has := func(l []string, x string) bool {
+		for _, y := range l {
+			if y == x {
 				return true
 			}
 		}
 		return false
+	}
+	if has(a, "send") && has(b, "send") {
+		return true
+	}
+	if has(a, "resendW") && (has(b, "resendR") || has(b, "resendW")) {
+		return true
+	}
+	if has(b, "resendW") && has(a, "resendR") {
+		return true
 	}
 	return false
 }
@@ -144,6 +175,13 @@ func oneRun(c *core.Ctx, r *core.Result, idx int, rng *rand.Rand) {
 	for try := 0; try < 3; try++ {
 		port = live.FreePort()
 		eng, err = live.StartAcceptor(live.Options{Who: "engine", Begin: cf.Begin, Sender: "E" + tag, Target: "P" + tag, Port: port, StoreKind: cf.Store, StoreDir: dir, Extra: extra, R: rec,
+			ToAdmin: func(m *quickfix.Message) {
+				// user code in the callback of a Logon takes a moment: the engine is between choosing the Logon's
+				// number and storing it, which must happen under the same exclusion as every other send
+				if m.IsMsgTypeOf("A") {
+					time.Sleep(2 * time.Millisecond)
+				}
+			},
 			Delay: func(op string) {
 				// widen the windows around store calls: harmless when the caller holds the exclusion it should
 				if op == "Reset" {
